@@ -6,7 +6,7 @@ import ast
 from ..model import FS, FCFG
 from . import names
 from .common import site_of
-from .flow import (both_answers, Oblig, calls, events, deps_of, arg_deps, SELF, P, has_fact, escaping_raises, short_exc, _path_to)
+from .flow import (helpers_of, both_answers, Oblig, calls, events, deps_of, arg_deps, SELF, P, has_fact, escaping_raises, short_exc, _path_to)
 
 EXPLANATION = (
     "Decides: the completer unifies only fresh copies of both feature structures and gives the copy to the new state "
@@ -80,13 +80,18 @@ def run(eng, rep, tier):
     # -------------------------------------------------------------- C18.3 exceptions
     fu = prog.method("FeatureStructure", "unify")
     su = interp.run_entry(fu, FS)
-    raises = {short_exc(x) for ev in su.events if ev.kind == "raise" for x in ev.exc}
+    raises = {short_exc(x) for ev, _ in events(su, "raise", own=True) for x in ev.exc}
     ob.decide("R6", "C18.3", fu, "unify-raises", raises == {"FeatureStructuresNotCompatibleException"},
               "unify refuses only with FeatureStructuresNotCompatibleException",
               "unify raises %s" % (sorted(raises) or "nothing on a clash"), su, site=site_of(prog, fu, fu.node))
-    clash = [ev for ev in su.events if ev.kind == "raise"]
+    clash = [ev for ev, _ in events(su, "raise", own=True)]
+
+    def _both_present(ev):
+        """the facts at the raise say that neither value is None, however the tests are spelt"""
+        present = [f for f in ev.facts if (".value is None" in f[0] and not f[1]) or (".value is not None" in f[0] and f[1])]
+        return len({f[0].split(".value")[0] for f in present}) >= 2
     ob.decide("R1", "C18.3", fu, "clash-iff-different-values",
-              bool(clash) and all(any(".value is None" in f[0] and not f[1] for f in ev.facts) for ev in clash),
+              bool(clash) and all(_both_present(ev) for ev in clash),
               "a clash is reported only when both atomic values are present and differ",
               "unify reports a clash although one side is unspecified (or never reports one)", su,
               site=(clash[0].site.to_json() if clash else site_of(prog, fu, fu.node)))
@@ -100,6 +105,16 @@ def run(eng, rep, tier):
     if atomic is None:
         rep.error("R1", "C18.3", fu.qname, "atomic-case-links-nodes", "the atomic case of unify was not found")
     else:
+        _helpers = helpers_of(prog, fu)
+
+        def _helper_body(call):
+            nm = call.func.attr if isinstance(call.func, ast.Attribute) else getattr(call.func, "id", None)
+            h = _helpers.get(nm) if nm and nm.startswith("_") else None
+            return [x for x in h.body if not (isinstance(x, ast.Expr) and isinstance(x.value, ast.Constant))] if h is not None else None
+
+        def _helper_raises_only(call):
+            return False        # a return inside the helper returns to the caller, it does not end the caller's path
+
         def paths(stmts):
             """(links, exits) for every path through a block of the atomic case"""
             outs = [(False, False)]
@@ -113,6 +128,9 @@ def run(eng, rep, tier):
                         for br in (st.body, st.orelse):
                             for l2, d2 in paths(br):
                                 new.append((links or l2, d2))
+                    elif isinstance(st, ast.Expr) and isinstance(st.value, ast.Call) and _helper_body(st.value) is not None:
+                        for l2, d2 in paths(_helper_body(st.value)):      # private helper: its body is the path
+                            new.append((links or l2, False if not d2 else _helper_raises_only(st.value)))
                     elif isinstance(st, ast.Raise):
                         new.append((True, True))          # refusal: nothing to link
                     elif isinstance(st, ast.Return):
@@ -163,19 +181,23 @@ def run(eng, rep, tier):
                       site=site_of(prog, comp, c))
     # -------------------------------------------------------------- C18.4 copy / subsumes / unify structure
     fc = prog.method("FeatureStructure", "copy")
-    memo_first = False
-    body = [s for s in fc.node.body if not (isinstance(s, ast.Expr) and isinstance(s.value, ast.Constant))]
-    created_at = next((i for i, s in enumerate(body) if "FeatureStructure(" in ast.unparse(s)), None)
-    consulted_at = next((i for i, s in enumerate(body) if isinstance(s, ast.If) and " in already_copied" in ast.unparse(s.test)
-                         and any(isinstance(r, ast.Return) for r in s.body)), None)
-    recorded = any(isinstance(s, ast.Assign) and any(isinstance(tg, ast.Subscript) and "already_copied" in ast.unparse(tg.value)
-                                                      for tg in s.targets) for s in ast.walk(fc.node))
-    passes = all("already_copied" in ast.unparse(c) for c in ast.walk(fc.node)
-                 if isinstance(c, ast.Call) and isinstance(c.func, ast.Attribute) and c.func.attr == "copy")
+    # the memo = the object every recursive copy receives; it is consulted (in / get / subscript) before the new
+    # structure is created, the new structure is stored in it, and it is handed to every recursive copy
+    sc0 = interp.run_entry(fc, FS)
+    evs = [ev for ev, _ in events(sc0, None, own=True)]
+    rec_calls = [ev for ev in evs if ev.kind == "call" and ev.callee == fc.qname]
+    passes = bool(rec_calls) and all(ev.args and ev.args[0].alias for ev in rec_calls)
+    memo = frozenset().union(*[ev.args[0].alias for ev in rec_calls if ev.args]) if rec_calls else frozenset()
+    created = [i for i, ev in enumerate(evs) if ev.kind == "new" and ev.callee == FS]
+    consulted = [i for i, ev in enumerate(evs) if ev.recv is not None and ev.recv.alias & memo and (
+        ev.kind in ("member", "subscript") or (ev.kind in ("bcall", "call") and (ev.callee or "").rsplit(".", 1)[-1] == "get"))]
+    new_alias = frozenset().union(*[evs[i].result.alias for i in created if evs[i].result is not None]) if created else frozenset()
+    recorded = any(ev.kind == "write" and ev.wkind == "subscript" and ev.recv is not None and ev.recv.alias & memo
+                   and ev.value is not None and ev.value.alias & new_alias for ev in evs)
     ob.decide("R1", "C18.4", fc, "copy-preserves-sharing",
-              created_at is not None and consulted_at is not None and consulted_at < created_at and recorded and passes,
+              bool(created) and bool(consulted) and min(consulted) < min(created) and recorded and passes,
               "the memo is consulted before creating, filled after creating and handed to every recursive copy",
-              "copy does not preserve sharing: the memo is not (consulted first / filled / passed on)", None,
+              "copy does not preserve sharing: the memo is not (consulted first / filled / passed on)", sc0,
               site=site_of(prog, fc, fc.node))
     sc_ = interp.run_entry(fc, FS)
     rd = deps_of(sc_.ret)
